@@ -150,8 +150,42 @@ func key(s []bstate) string {
 var phaseOf = map[string]enum.FencePhase{"P": enum.FencePhasePrepare, "C": enum.FencePhaseCommit, "R": enum.FencePhaseRollback}
 var colOf = map[string]string{"P": "tries", "C": "confirms", "R": "cancels"}
 
-// deliver runs one delivery the way an application uses the fence: one local transaction, WithFence, commit or roll back.
-func deliver(a Action) (err error) {
+// viaDriver selects the second way an application uses the fence: a *sql.DB opened through the fence driver, whose BeginTx does
+// the fence step (in a transaction of its own on the target database) before the business statements run in the returned one.
+var viaDriver bool
+var fenceDB *sql.DB
+
+func deliver(a Action) error {
+	if viaDriver {
+		return deliverDriver(a)
+	}
+	return deliverAPI(a)
+}
+
+func deliverDriver(a Action) (err error) {
+	b := branches[a.Branch]
+	ctx := tm.InitSeataContext(context.Background())
+	tm.SetXID(ctx, b.Xid)
+	tm.SetFencePhase(ctx, phaseOf[a.Op])
+	tm.SetBusinessActionContext(ctx, &tm.BusinessActionContext{Xid: b.Xid, BranchId: b.ID, ActionName: "act-" + b.Key})
+	defer func() {
+		if r := recover(); r != nil {
+			err = fmt.Errorf("panic: %v", r)
+		}
+	}()
+	tx, err := fenceDB.BeginTx(ctx, nil)
+	if err != nil {
+		return fmt.Errorf("begin: %w", err)
+	}
+	if _, e := tx.ExecContext(ctx, "UPDATE biz SET "+colOf[a.Op]+" = "+colOf[a.Op]+" + 1 WHERE k = ?", b.Key); e != nil {
+		tx.Rollback()
+		return e
+	}
+	return tx.Commit()
+}
+
+// deliverAPI runs one delivery the way an application uses the fence API: one local transaction, WithFence, commit or roll back.
+func deliverAPI(a Action) (err error) {
 	b := branches[a.Branch]
 	ctx := tm.InitSeataContext(context.Background())
 	tm.SetXID(ctx, b.Xid)
@@ -201,6 +235,8 @@ func reach(path []string) {
 func parse(s string) Action {
 	return Action{Op: s[:1], Branch: int(s[1] - '1')}
 }
+
+var pathTag string // "" for the WithFence API, "driver:" for the fence driver (part of every signature)
 
 const clauseText = "try, confirm and cancel effects are each applied at most once; confirm and cancel never both; a rollback before try records a suspension, applies nothing and makes a later try refused; the fence record and the business effect commit or roll back together"
 
@@ -259,11 +295,11 @@ func bfs(r *rep.Run, nb, depth int) (paths map[string][]string) {
 				transitions++
 				r.Eval(true)
 				if clause, detail := classify(prev, st, a, err); clause != "" {
-					r.Violate(fmt.Sprintf("%s/%s-from-%s", clause, a.Op, prev[a.Branch].St), clauseText,
+					r.Violate(fmt.Sprintf("%s%s/%s-from-%s", pathTag, clause, a.Op, prev[a.Branch].St), clauseText,
 						Located{Mode: "bfs", Path: paths[k], Action: a.String()}, detail+fmt.Sprintf(" | path %v", paths[k]))
 				}
 				if n := env.Srv.OpenTxCount(); n != 0 {
-					r.Violate("transaction-left-open/"+a.Op, clauseText, Located{Mode: "bfs", Path: paths[k], Action: a.String()}, fmt.Sprintf("%d transaction(s) left open", n))
+					r.Violate(pathTag+"transaction-left-open/"+a.Op, clauseText, Located{Mode: "bfs", Path: paths[k], Action: a.String()}, fmt.Sprintf("%d transaction(s) left open", n))
 				}
 				nk := key(st)
 				if _, seen := paths[nk]; !seen {
@@ -278,9 +314,9 @@ func bfs(r *rep.Run, nb, depth int) (paths map[string][]string) {
 		}
 		frontier = next
 	}
-	r.Count(fmt.Sprintf("bfs_states/%dbranches", nb), int64(len(paths)))
-	r.Count(fmt.Sprintf("bfs_transitions/%dbranches", nb), int64(transitions))
-	r.Count(fmt.Sprintf("bfs_max_depth/%dbranches", nb), int64(maxDepth))
+	r.Count(fmt.Sprintf("%sbfs_states/%dbranches", pathTag, nb), int64(len(paths)))
+	r.Count(fmt.Sprintf("%sbfs_transitions/%dbranches", pathTag, nb), int64(transitions))
+	r.Count(fmt.Sprintf("%sbfs_max_depth/%dbranches", pathTag, nb), int64(maxDepth))
 	if len(frontier) > 0 {
 		r.Count(fmt.Sprintf("bfs_frontier_left/%dbranches", nb), int64(len(frontier)))
 	}
@@ -301,14 +337,17 @@ func faults(r *rep.Run, paths map[string][]string, nb int) {
 			a := Action{op, 0}
 			for f := 0; f < 12; f++ {
 				reach(paths[k])
-				n, hit, hitKind := 0, false, ""
+				n, hit, hitKind, commits, hitCommit := 0, false, "", 0, 0
 				env.Srv.Fault = func(o memdb.Op) error {
 					if o.Kind == "connect" {
 						return nil
 					}
 					n++
+					if o.Kind == "commit" {
+						commits++
+					}
 					if n-1 == f {
-						hit, hitKind = true, o.Kind
+						hit, hitKind, hitCommit = true, o.Kind, commits
 						return &mysql.MySQLError{Number: 1205, Message: "Lock wait timeout exceeded (injected)"}
 					}
 					return nil
@@ -321,15 +360,19 @@ func faults(r *rep.Run, paths map[string][]string, nb int) {
 				st := readState(nb)
 				r.Eval(true)
 				r.Count("fault_cases", 1)
+				at := ""
+				if hitKind == "commit" && hitCommit == 2 {
+					at = "@second-commit" // only the fence driver has two transactions per delivery
+				}
 				if key(st) != k {
-					r.Violate(fmt.Sprintf("fault-partial/%s-from-%s", op, prev[0].St), clauseText, Located{Mode: "fault", Path: paths[k], Action: a.String(), Fault: f},
+					r.Violate(fmt.Sprintf("%sfault-partial/%s-from-%s%s", pathTag, op, prev[0].St, at), clauseText, Located{Mode: "fault", Path: paths[k], Action: a.String(), Fault: f},
 						fmt.Sprintf("operation #%d of %v failed (err=%v); the state is %+v, expected the source state %+v", f, a, err, st[0], prev[0]))
 				} else if err == nil {
-					r.Violate(fmt.Sprintf("fault-swallowed/%s-from-%s", op, prev[0].St), clauseText, Located{Mode: "fault", Path: paths[k], Action: a.String(), Fault: f},
+					r.Violate(fmt.Sprintf("%sfault-swallowed/%s-from-%s", pathTag, op, prev[0].St), clauseText, Located{Mode: "fault", Path: paths[k], Action: a.String(), Fault: f},
 						fmt.Sprintf("operation #%d of %v failed but the delivery reported success", f, a))
 				}
 				if n := env.Srv.OpenTxCount(); n != 0 && hitKind != "rollback" { // a failed ROLLBACK leaves the transaction to the server
-					r.Violate("transaction-left-open/fault/"+op, clauseText, Located{Mode: "fault", Path: paths[k], Action: a.String(), Fault: f}, fmt.Sprintf("%d transaction(s) left open", n))
+					r.Violate(pathTag+"transaction-left-open/fault/"+op, clauseText, Located{Mode: "fault", Path: paths[k], Action: a.String(), Fault: f}, fmt.Sprintf("%d transaction(s) left open", n))
 				}
 			}
 		}
@@ -499,6 +542,27 @@ func Run(r *rep.Run) {
 	paths := bfs(r, nb, depth)
 	faults(r, paths, nb)
 	races(r, paths, bound)
+	// the same search through the fence driver
+	sql.Register("verif-fence-memdb", &fence.FenceDriver{TargetDriver: memdb.Driver{}})
+	fenceDB, err = sql.Open("verif-fence-memdb", env.DSN)
+	if err != nil {
+		r.Broken = err.Error()
+		return
+	}
+	viaDriver, pathTag = true, "driver:"
+	// a transaction begun without a seata context is refused and leaves nothing behind
+	reach(nil)
+	if tx, e := fenceDB.BeginTx(context.Background(), nil); e == nil {
+		tx.Rollback()
+		r.Violate("driver:no-context-accepted", clauseText, Located{Mode: "bfs"}, "BeginTx through the fence driver without a seata context succeeded")
+	}
+	r.Eval(true)
+	if n := env.Srv.OpenTxCount(); n != 0 {
+		r.Violate("driver:transaction-left-open/no-context", clauseText, Located{Mode: "bfs"}, fmt.Sprintf("%d transaction(s) left open after a refused BeginTx", n))
+	}
+	dpaths := bfs(r, nb, depth)
+	faults(r, dpaths, nb)
+	viaDriver, pathTag = false, ""
 }
 
 var _ = sql.ErrNoRows
